@@ -34,6 +34,22 @@ Theorem C03_history : forall (P O : Type) (dP : P) (dO : O) hist (s : cstate P O
 Proof. exact history_restores. Qed.
 Print Assumptions C03_history.
 
+(* the general form: displacements anywhere in the trial, at most one deletion batch, no insertion before it - every elementary move,
+   every specialised composite AND plain composites such as d + e, e + d, c + d + e with one exchange part *)
+Theorem C03_reject_restores_general : forall (P O : Type) (dP : P) (dO : O) (s : cstate P O) acts, Sync s -> undoable P O s acts ->
+  let t := apply_trial dP dO acts s in
+  rows (revert dP dO t) = rows s /\ Sync (revert dP dO t) /\ nexch (revert dP dO t) = nexch s.
+Proof. exact reject_restores_general. Qed.
+Print Assumptions C03_reject_restores_general.
+Theorem C03_history_general : forall (P O : Type) (dP : P) (dO : O) hist (s : cstate P O), Sync s -> und_run P O dP dO hist s ->
+  rejected_restored P O dP dO hist s /\ Sync (fold_left (run1 P O dP dO) hist s).
+Proof. exact history_restores_general. Qed.
+Print Assumptions C03_history_general.
+Example C03_general_nonvacuous :
+  let s := Build_cstate [(1, 10); (2, 20); (3, 30); (4, 40)]%Z [1; 2; 3; 4]%Z [] [] [] 0%Z 0%Z in
+  let acts := [Move (fun rs => map (fun r => (fst r + 1)%Z) rs); Delete [3%nat; 1%nat] 1%Z; Insert [(7, 70)]%Z; Move (fun rs => map (fun r => 0%Z) rs); Insert [(8, 80); (9, 90)]%Z] in
+  rows (apply_trial 0%Z 0%Z acts s) = [(0, 10); (0, 30); (0, 70); (8, 80); (9, 90)]%Z /\ rows (revert 0%Z 0%Z (apply_trial 0%Z 0%Z acts s)) = rows s.
+Proof. split; reflexivity. Qed.
 (* the shipped bookkeeping cannot undo two deletions made one after the other in one trial (a plain composite holding two
    exchange moves): the second index list lives in another frame.  Witness: rows a b c d, delete [0], then delete [0] again. *)
 Example C03_two_frames_refuted :
